@@ -180,7 +180,17 @@ func run(id, tier string) int {
 	for k, v := range ctx.Cov.Notes {
 		cov[k] = v
 	}
-	cov["samples"] = ctx.Cov.Samples
+	samples := ctx.Cov.Samples
+	for _, v := range uniq {
+		if len(samples) >= 16 {
+			break
+		}
+		samples = append(samples, map[string]any{"violating_case": rt.Shorten(v.Sig, 300)})
+	}
+	if samples == nil {
+		samples = []any{}
+	}
+	cov["samples"] = samples
 	cov["exhaustive"] = ctx.Cov.Exhaustive
 	if len(ctx.Cov.Incomplete) > 0 {
 		cov["caps_hit"] = ctx.Cov.Incomplete
@@ -246,7 +256,7 @@ func worker(jobJSON string) {
 func replay(path string, quiet bool) int {
 	v := rt.ReadReplay(path)
 	p := props.Registry[v.Prop]
-	if p == nil || p.Replay == nil {
+	if p == nil || (p.Replay == nil && v.Kind != "worker-crash") {
 		rt.Harnessf("no replayer for %s", v.Prop)
 	}
 	scratch := os.Getenv("VCHECK_REPLAY_SCRATCH")
@@ -255,7 +265,12 @@ func replay(path string, quiet bool) int {
 		defer cleanup()
 	}
 	ctx := &rt.Ctx{Prop: v.Prop, Tier: "quick", Seed: seed(), Scratch: scratch, Deadline: time.Now().Add(10 * time.Minute), Cov: rt.NewCoverage(), Level: p.Level}
-	got := p.Replay(ctx, v)
+	var got *rt.Violation
+	if v.Kind == "worker-crash" {
+		got = rt.ReplayCrash(ctx, v)
+	} else {
+		got = p.Replay(ctx, v)
+	}
 	if got == nil {
 		if !quiet {
 			fmt.Printf("replay of %s: property held (violation did not reproduce)\n", path)
